@@ -76,7 +76,18 @@ pub fn parse<'a, T: Iterator<Item = &'a Token>>(
             "\"\"" => "",
             span => &span[1..span.len() - 1],
         }),
-        TokenType::Symbol => Ok(Cell::new_symbol(token.span(text))),
+        TokenType::Symbol => {
+            let span = token.span(text);
+            match span.contains('\\') {
+                // an inline hex escape may spell a character that needs none: store the one written form
+                // of the name, so that every spelling of a name is the same symbol
+                true => match parse_string(span) {
+                    Ok(Cell::String(name)) => Ok(Cell::Symbol(symbol_text(&name))),
+                    _ => Ok(Cell::new_symbol(span)),
+                },
+                false => Ok(Cell::new_symbol(span)),
+            }
+        }
         TokenType::NumberPrefix | TokenType::Number => parse_number(text, cur, token),
         TokenType::Dot | TokenType::WhiteSpace => {
             Err(Error::UnexpectedToken(token.span(text).into()))
@@ -224,6 +235,32 @@ fn parse_char(text: &str, token: &Token) -> Result<Cell, Error> {
             .map(Cell::Char)
             .ok_or_else(|| Error::UnknownChar(span.into()))
     }
+}
+
+/// Symbol Text
+///
+/// The written form under which the symbol named `name` is stored. Symbols are interned by
+/// this text, so it must not depend on the way the symbol is produced: it is the name itself
+/// if the reader reads that text as this very symbol (a name starting with a digit is
+/// always written with an escape), and otherwise the name with every character that cannot
+/// stand at its position written as an inline hex escape.
+pub fn symbol_text(name: &str) -> String {
+    if !name.contains('\\') && !name.starts_with(|c: char| c.is_ascii_digit()) {
+        if let Ok((Cell::Symbol(text), None)) = parse_text(name) {
+            if text == name {
+                return text;
+            }
+        }
+    }
+    name.char_indices()
+        .map(|(idx, c)| match c {
+            // a backslash starts an escape in the written form of a name
+            '\\' => format!("\\x{:x};", c as u32),
+            c if idx == 0 && lex::is_initial_identifier(c) => c.to_string(),
+            c if idx > 0 && lex::is_subsequent_identifier(c) => c.to_string(),
+            c => format!("\\x{:x};", c as u32),
+        })
+        .collect::<String>()
 }
 
 /// Parse String
